@@ -8,7 +8,7 @@
    is the outcome lk; the redaction is C05's model (redact ver j).  Nothing is assumed about
    them beyond what each statement names. *)
 From Verif Require Import Lib.Bytes Json.Ast Json.Parse Gen.GenVersions Gen.GenConsts Gen.GenC06 Event.Redact
-  Event.VerifySig Event.RequiredSpec Event.VerifySigProofs.
+  Event.VerifySig Event.RequiredSpec Event.VerifySigProofs Event.VerifySigRedact.
 Open Scope N_scope.
 
 (* ---- the literals and the wiring the model takes from eventcrypto.go (regenerated every run) ---- *)
@@ -67,13 +67,19 @@ Theorem verify_event_iff_required : forall ver j d msg verifier verr,
    forall s, In s (required_spec ver j) -> verifier (spec_request ver j msg s) = true).
 Proof. intros. apply verify_event_iff; assumption. Qed.
 
-(* the same with the verifier seen as a predicate on servers (DESIGN's form) *)
-Theorem verify_event_iff_required_servers : forall ver j d msg (valid : bytes -> bool),
-  wf_event ver j = true -> sender_server j = Some d -> redact ver j = Some msg ->
+(* every well-formed event has a redacted form (C05's model of RedactEventJSON never fails on it),
+   so the premise  redact ver j = Some msg  above is always satisfiable *)
+Theorem wf_event_has_redacted_form : forall ver j,
+  wf_event ver j = true -> exists msg, redact ver j = Some msg.
+Proof. exact wf_event_redacts. Qed.
+
+(* the same with the verifier seen as a predicate on servers (DESIGN's form), no other premise *)
+Theorem verify_event_iff_required_servers : forall ver j d (valid : bytes -> bool),
+  wf_event ver j = true -> sender_server j = Some d ->
   (verify_event ver (LDom d) j (fun r => valid (r_server r)) false = true <->
    forall s, In s (required_spec ver j) -> valid s = true).
 Proof.
-  intros ver j d msg valid H1 H2 H3.
+  intros ver j d valid H1 H2. destruct (wf_event_redacts ver j H1) as [msg H3].
   rewrite (verify_event_iff ver j d msg _ false H1 H2 H3). simpl. split; [intros [_ H]; exact H | auto].
 Qed.
 
@@ -246,6 +252,7 @@ Print Assumptions validity_rule_per_version.
 Print Assumptions validity_rule_strict_from_v5.
 Print Assumptions required_model_eq_spec.
 Print Assumptions verify_event_iff_required.
+Print Assumptions wf_event_has_redacted_form.
 Print Assumptions verify_event_iff_required_servers.
 Print Assumptions one_bad_required_signature_fails.
 Print Assumptions non_required_signatures_irrelevant.
